@@ -3,11 +3,14 @@ import LexVerif.Spec.Shortest
 import LexVerif.Model.Dragonbox
 import LexVerif.Model.Format
 import LexVerif.Model.WriteBinary
+import LexVerif.Model.Grisu
 /-!
 # Model.Ops.WriteAlgos — line-protocol handlers for the float-writer components
 
 * `td TY BITS` → `ok <mant> <exp>`: `algorithm::to_decimal` (non-compact builds), model `Model.Dragonbox.toDecimal`;
   specification column: every `(D, E)` of `Spec.shortest` (the implementation must return one of them).
+* `gr TY BITS` → `ok <digits hex> <k>`: `compact::grisu` (compact builds), model `Model.Grisu.grisu`.
+* `wf …` for power-of-two radix formats with default digit options: model `Model.WriteBinary.writeFloat` (bytes).
 -/
 namespace LexVerif.Model.Ops.WriteAlgos
 open LexVerif.Spec LexVerif.Model
@@ -19,6 +22,14 @@ def runTd (ty bits : String) : Option String :=
   | some t, some b =>
     match Dragonbox.toDecimal t (clearSign t.bits b) with
     | some (m, e) => some s!"ok {m} {e}"
+    | none => some "fault"
+  | _, _ => none
+
+def runGr (ty bits : String) : Option String :=
+  match Dragonbox.FTy.ofName ty, ofHex bits with
+  | some t, some b =>
+    match Grisu.grisu t (clearSign t.bits b) with
+    | some (ds, k) => some s!"ok {hexBytes ds} {k}"
     | none => some "fault"
   | _, _ => none
 
@@ -56,6 +67,7 @@ def runWf (feats : Features) (ty f bits : String) (opts : List String) (buflen :
 def handle (feats : Features) (t : List String) : Option String :=
   match t with
   | ["td", ty, bits] => if feats.compact then some "nofeature" else runTd ty bits
+  | ["gr", ty, bits] => if feats.compact then runGr ty bits else some "nofeature"
   | "wf" :: ty :: f :: bits :: rest =>
     if rest.length = 11 then runWf feats ty f bits (rest.take 10) (rest.getD 10 "-") else none
   | _ => none
